@@ -6,7 +6,7 @@ func init() {
 		s.Pkgs = []string{"board", "heur", "attacks", "movegen"}
 		s.Native = []NativeRun{{"heur", "VpV_SEE"}}
 		s.Bounds = []string{
-			"ARBITRARY valid position, concrete legal (side, from, to, promotion) case (seeded sample in quick, all 3760 in thorough), thresholds -3000..3000 symbolic",
+			"ARBITRARY valid position, concrete legal (side, from, to, promotion) case (seeded sample in quick, eight times as many in thorough, all 3760 in tier `exhaustive`), thresholds -3000..3000 symbolic",
 			"exchanges of at most 2 (quick) / 3 (thorough) captures after the initial move (specification bound, assumed; longer exchanges did not close within 60 s per query); the implementation's exchange loop is unrolled bound+2 times with an unwinding assumption; the native comparison on the corpus uses 8 captures",
 		}
 		s.Assumptions = append(s.Assumptions,
